@@ -136,9 +136,9 @@ def r13_5(ctx, imp):
         f = F.fn(UT, p)
         if f is None or not f.built:
             continue
-        b = f.built
         if not (f.name.startswith("push_into_") or f.name.startswith("extend_")):
             continue
+        b = inl(F, f)
         ims = b.calls(r"SmallVec::<.*>::insert_many")
         pops = b.calls(r"::pop$")
         revs = b.calls(r"Iterator>?::rev$|::reverse$")
